@@ -45,6 +45,7 @@ def giet_measure(self):
 class GenerateImpliedEndTags:
     props = ("C03", "C01")
     budget = {"prove_ms": 60000}
+    no_recursion = True          # one stack frame per popped element would overflow on deep nesting (C03)
 
     def inputs(S):
         return dict(self=builder(S), exclude=S.one_of(None, lambda: S.str("exclude")))
